@@ -73,20 +73,44 @@ def showEvent : Event → String
   | .removed s m => s!"-{s}:{showMember m}"
   | .cleared s => s!"x{s}"
 
-def render (before : Nat) (st : Idx DSel) : String :=
+/-- Net callbacks of an op: a member added and removed again (or vice versa) inside the op cancels.
+Used for ops that rescan SEVERAL endpoints (`parent`, `delparent`): there the real code visits the
+endpoints in Go map order, and whether a member shared by two endpoints is transiently removed and
+re-added depends on that order; only the net effect is determined. -/
+def netEvents (es : List Event) : List Event :=
+  let keyOf : Event → Option (String × Member)
+    | .added s m => some (s, m)
+    | .removed s m => some (s, m)
+    | .cleared _ => none
+  es.filter (fun e => match keyOf e with
+    | none => true
+    | some k =>
+      let adds := (es.filter (fun x => match x with | .added s m => (s, m) == k | _ => false)).length
+      let rems := (es.filter (fun x => match x with | .removed s m => (s, m) == k | _ => false)).length
+      match e with
+      | .added .. => adds > rems
+      | .removed .. => rems > adds
+      | .cleared _ => true) |>.eraseDups
+
+def render (net : Bool) (before : Nat) (st : Idx DSel) : String :=
   let d := match replay st.out with
     | some d => showList (d.map (fun (p : String × Member) => s!"{p.1}:{showMember p.2}"))
     | none => "ALTERNATION-ERROR"
   let r := showList (st.ipsets.flatMap (fun p => p.2.refc.map (fun q => s!"{p.1}:{showMember q.1}={q.2}")))
   let c := showList (st.eps.flatMap (fun p => p.2.cached.map (fun s => s!"{p.1}:{s}")))
   let t := showList (st.tries.flatMap (fun p => p.2.map (fun c => s!"{p.1}:{showCidr c}")))
-  let e := if st.suppress then "-" else showList ((st.out.drop before).map showEvent)
+  let evs := st.out.drop before
+  let e := if st.suppress then "-" else showList ((if net then netEvents evs else evs).map showEvent)
   if st.panicked then "PANIC" else s!"D={d} R={r} C={c} T={t} E={e}" ++ (if st.underflow then " UNDERFLOW" else "")
 
 def applyOp (st : Idx DSel) (op : Op DSel) : Idx DSel × String :=
   if st.panicked then (st, "dead") else
   let st' := C04.step dMatch st op
-  (st', render st.out.length st')
+  let net := match op with
+    | .updateParentLabels .. => true
+    | .deleteParentLabels .. => true
+    | _ => false
+  (st', render net st.out.length st')
 
 def step (st : Idx DSel) (line : String) : Idx DSel × String :=
   match words line with
